@@ -944,8 +944,8 @@ def make_plan(tier):
         n_sim = {"edf": 4, "fifo": 3, "lsf": 5, "ilp": 6, "ts_gurobi": 4, "ts_cplex": 3, "clockwork": 3}
         n_prefix = 14
     else:
-        n_sim = {"edf": 60, "fifo": 50, "lsf": 60, "ilp": 110, "ts_gurobi": 70, "ts_cplex": 50, "clockwork": 50}
-        n_prefix = 240
+        n_sim = {"edf": 80, "fifo": 60, "lsf": 80, "ilp": 160, "ts_gurobi": 100, "ts_cplex": 70, "clockwork": 70}
+        n_prefix = 420
     sims = directed_sim_worlds()
     for kind, n in n_sim.items():
         for _ in range(n):
